@@ -35,6 +35,13 @@ CHECKS = {
         design_ref="DESIGN.md §4 C14",
         note="Which of several overlapping occurrences wins is left open (read from the scheduler log); trees compared after an unparse/parse round trip; a pass whose candidate does not parse is a rollback (C10).",
     ),
+    "C15": dict(
+        technique="runtime differential monitor: core.literal_value beside Python's own eval under an effect sanitizer (audit hook + stdout capture), cross-process re-evaluation under another hash seed; consumer-level execution oracle on programs whose conditions are constant expressions",
+        category="exploration",
+        text="All depth-1 expressions over 25 literal atoms (unary, 13 binary, 8 comparison, and/or, singleton identity) are enumerated completely; every lower-case builtin is called with 17 literal argument vectors; constant-receiver method calls, keyword/starred calls, process-dependent and effectful expressions are fixed sets; 40k (300k thorough) random expressions of depth 2-4. literal_value must return exactly eval's value (type and canonical repr), raise only ValueError, and cause no effect; folded values containing calls or sets are re-evaluated in a process with another PYTHONHASHSEED. 1.6k (12k) programs built from 10 condition templates go through the folding rules and format_code and are executed before/after.",
+        design_ref="DESIGN.md §4 C15",
+        note="Reference = CPython 3.12 eval of the same text; identity between non-singleton literals excluded; divergences attributed to rules that do not consume constant evaluation are left to C01/C02.",
+    ),
 }
 
 NOT_YET = {}
